@@ -53,8 +53,7 @@ def _anchor_owners():
                 for line in fh:
                     pr = _json.loads(line)
                     for a in pr["anchors"]["files"]:
-                        if not a.endswith("/"):
-                            _OWNERS.setdefault(a, set()).add(pr["id"])
+                        _OWNERS.setdefault(a, set()).add(pr["id"])
         except (OSError, ValueError, KeyError):
             pass
     return _OWNERS
@@ -136,10 +135,18 @@ def common(ctx):
         # it along (C15 relies on partial_transpose: whatever C03 checks on partial_transpose is checked for C15 too).  Only violated or
         # unknown-required ones matter for the verdict; all are marked as closure obligations.
         if not getattr(ctx, "is_sub", False) and not os.environ.get("VERIF_NO_BORROW"):
-            owners = _anchor_owners()
+            raw = _anchor_owners()
+
+            def owners_of(fl):
+                out = set(raw.get(fl, ()))
+                for a, ps in raw.items():
+                    if a.endswith("/") and fl.startswith(a):
+                        out |= ps
+                return out
+
             closure_files = {g.file for g in ctx.model.callees_closure(list(roots))} - {f.file for f in roots}
-            mine = {a for a in owners if ctx.prop in owners[a]}
-            need = sorted({pid for fl in closure_files for pid in owners.get(fl, ()) if pid != ctx.prop and fl not in mine})
+            owners = {fl: owners_of(fl) for fl in closure_files}
+            need = sorted({pid for fl in closure_files for pid in owners[fl] if pid != ctx.prop and ctx.prop not in owners[fl]})
             for pid in need:
                 sub = Ctx(pid, ctx.model, "quick")
                 sub.is_sub = True
